@@ -247,7 +247,33 @@ func (g *G) extraTmpl(d int) *Node {
 
 // extraStmt returns a statement (group) of one of the extra kinds.
 func (g *G) extraStmt(d int) []*Node {
-	switch g.intn(15, "extraStmtKind") {
+	switch g.intn(16, "extraStmtKind") {
+	case 15:
+		// a computed value of the outer scope with a free variable, read inside a function whose parameter (or local) has
+		// that variable's name: the body belongs to the scope that owns the computed value
+		if g.inFunc || g.funcs >= 3 || !g.O.Computed {
+			return []*Node{g.assignStmt(d)}
+		}
+		g.funcs++
+		free, comp, fn, res := g.FreshName(), g.FreshName(), g.FreshName(), g.FreshName()
+		g.Env.Put(&VarInfo{Name: free, T: TInt, Len: -1})
+		g.Env.Put(&VarInfo{Name: comp, T: TAny, Len: -1})
+		g.Env.Put(&VarInfo{Name: fn, T: TFunc, Arity: 1, Ret: TInt, Len: -1})
+		g.Env.Put(&VarInfo{Name: res, T: TAny, Len: -1})
+		var body *Node
+		if g.intn(2, "ocLocal") == 0 {
+			// the name is the function's parameter
+			body = Block(N("ret", Var(comp)))
+		} else {
+			// the name is a local the function assigns before reading
+			body = Block(Set(free, Bin("+", Var(free), Int(100))), N("ret", Bin("+", Var(comp), Var(free))))
+		}
+		return []*Node{
+			Set(free, Int(int64(1+g.intn(9, "ocFree")))),
+			&Node{K: "setc", S: comp, Kids: []*Node{Bin("+", Var(free), Int(int64(1+g.intn(5, "ocK"))))}},
+			&Node{K: "func", S: fn, Names: []string{free}, Kids: []*Node{body}},
+			Set(res, N("arr", Call(Var(fn), Int(int64(10+g.intn(80, "ocArg")))), Var(comp), Var(free))),
+		}
 	case 14:
 		// one operand of == / != reaches the same array twice (through a variable), the other holds two arrays of its own
 		// at those places, equal to it or not: structural equality looks at both sides of every pair
